@@ -3,7 +3,7 @@
 (* Trace validation for the rule tables: margins (C20) ...  One JSON line  *)
 (* per recorded call of the real code; total verdicts.                     *)
 (***************************************************************************)
-EXTENDS Margins, Json, IOUtils, TLC, Integers
+EXTENDS Margins, PandoraInput, Json, IOUtils, TLC, Integers
 
 Cases == ndJsonDeserialize(IOEnv.TRACE_FILE)
 
@@ -22,7 +22,37 @@ MarginsVerdict(e) ==
        detail |-> <<Cumulatives(e.pipe, e.rows, e.cols, e.stp), NonCumulatives(e.pipe, e.rows, e.cols, e.stp),
                     Global(e.pipe, e.rows, e.cols, e.stp)>>]
 
+\* ---- dataset content (C16): e.img [band][row][col] stored samples (NaN / +inf / -inf sentinels), e.nodata, e.mask_given, e.inmask
+NaNv == 1000000007
+PInf == 1000000001
+NInf == -1000000001
+PixD(e) == (1..e.rows) \X (1..e.cols)
+IsNd(e, r, c) == \E b \in 1..e.nb : e.img[b][r][c] = e.nodata
+SpecialNd(e) == e.nodata \in {NaNv, PInf, NInf}
+ExpectedSample(e, b, r, c) == IF e.img[b][r][c] = e.nodata /\ SpecialNd(e) THEN -9999 ELSE e.img[b][r][c]
+ExpectedMask(e, r, c) == LET k == MaskClass(IsNd(e, r, c), e.inmask[r][c])
+                         IN IF k = 0 THEN e.out.valid_pixels ELSE IF k = 1 THEN e.out.no_data_mask ELSE -1   \* -1: any other value
+DatasetVerdict(e) ==
+   LET anynd == \E x \in PixD(e) : IsNd(e, x[1], x[2])
+       badS == {y \in (1..e.nb) \X PixD(e) : e.out.im[y[1]][y[2][1]][y[2][2]] # ExpectedSample(e, y[1], y[2][1], y[2][2])}
+       hasvar == HasMaskVar(e.mask_given, anynd)
+       badM == IF ~e.out.has_msk THEN {}
+               ELSE {x \in PixD(e) : LET want == ExpectedMask(e, x[1], x[2])  got == e.out.msk[x[1]][x[2]]
+                                      IN IF want = -1 THEN got \in {e.out.valid_pixels, e.out.no_data_mask} ELSE got # want}
+   IN [failed |-> (IF badS # {} THEN {"samples_unchanged"} ELSE {})
+                  \cup (IF e.out.has_msk # hasvar THEN {"mask_variable_presence"} ELSE {})
+                  \cup (IF badM # {} THEN {"mask_classes"} ELSE {})
+                  \cup (IF ~e.out.dtype_ok THEN {"float32"} ELSE {})
+                  \cup (IF ~e.out.bands_ok THEN {"band_names"} ELSE {})
+                  \cup (IF ~e.out.coords_ok THEN {"coordinates"} ELSE {})
+                  \cup (IF ~e.out.disp_ok THEN {"disparity_variable"} ELSE {})
+                  \cup (IF e.out.no_data_img # (IF SpecialNd(e) /\ anynd THEN -9999 ELSE e.nodata) THEN {"no_data_img_attribute"} ELSE {}),
+       detail |-> IF badS # {} THEN LET y == CHOOSE z \in badS : TRUE IN <<"sample", y[1], y[2][1], y[2][2], e.img[y[1]][y[2][1]][y[2][2]], e.out.im[y[1]][y[2][1]][y[2][2]]>>
+                  ELSE IF badM # {} THEN LET x == CHOOSE z \in badM : TRUE IN <<"mask", x[1], x[2], e.inmask[x[1]][x[2]], IsNd(e, x[1], x[2]), e.out.msk[x[1]][x[2]]>>
+                  ELSE <<>>]
+
 Verdict(e) == CASE e.step = "margins" -> MarginsVerdict(e)
+                [] e.step = "dataset" -> DatasetVerdict(e)
                 [] OTHER -> [failed |-> {"unknown_step"}, detail |-> <<>>]
 
 VARIABLE i
